@@ -62,7 +62,7 @@ def seeds_for(tier):
 def run(tier, replay=None):
     res = Result("C14", tier)
     build.ensure_souffle()
-    wd = workdir("C14")
+    wd = workdir("C14", clean=not replay)      # a replay file lives in the work directory
     rng = random.Random(seed() * 104729 + 14)
     quick = tier == "quick"
     if replay:
